@@ -164,6 +164,14 @@ pub fn gen_codec(r: &mut Rng) -> Vec<Tree> {
             ops.push(l(vec![n(125u8), b(&m), n(protocol), n(expire), b(&xn), b(&key)]));
         }
     }
+    // tokens made by the library itself, with 1, 2, 31 and 32 addresses of both families: written, then read back
+    {
+        let cnt = *r.pick(&[1usize, 2, 31, 32, 32]);
+        let addrs: Vec<Tree> = (0..cnt).map(|_| addr_tree(&gen_addr(r))).collect();
+        let timeout: i64 = *r.pick(&[-1i64, 0, 5, i32::MAX as i64, i32::MIN as i64]);
+        let now = *r.pick(&[0u64, 5 * SEC, 1000 * SEC]);
+        ops.push(l(vec![n(101u8), n(90u8), n(now), n(protocol), n(*r.pick(&[0u64, 1, 30, 1 << 40])), n(boundary_u64(r)), z_tree(timeout), l(addrs), b(&r.bytes(256)), b(&key)]));
+    }
     // public tokens from bytes (ConnectToken::read, then NetcodeClient::new and update)
     for i in 0..3u64 {
         let hostile = r.chance(2, 3);
